@@ -8,7 +8,7 @@
    gcfg scanner) is not modelled: see props/C48.py (suites decode, encode
    read-back). *)
 From Coq Require Import List NArith ZArith Bool String.
-From GoGit Require Import Base.Out Model.ConfigEnc Spec.GitConfig Proofs.C48 Proofs.C48Interp.
+From GoGit Require Import Base.Out Model.ConfigEnc Model.ConfigOpts Spec.GitConfig Proofs.C48 Proofs.C48Interp Proofs.C48Opts.
 Import ListNotations.
 Local Open Scope N_scope.
 
@@ -164,4 +164,63 @@ Example C48_guards_inhabited :
   parsebool_common [84;82;85;69] = true /\ word6 [79;102;70] = true /\
   plain_dec [50;49;52;55;52;56;51;54;52;55] = true /\
   dec_digits_val [50;49;52;55;52;56;51;54;52;55] 0 = Some 2147483647.
+Proof. vm_compute. repeat split. Qed.
+
+(* ---- read-modify-write: SetOption / AddOption / RemoveOption ----
+   G = Model/ConfigOpts.v (option.go: IsKey, Get, GetAll, withoutOption,
+   withAddedOption, withSettedOption).  git's keys are case-insensitive, so a
+   file may spell a key `URL` or `Bare`; every Config.Marshal field goes through
+   SetOption, which must replace the entry under ANY spelling. *)
+
+(* set-then-get, for every option list, key, spelling key' of the key and value:
+   Get returns the new value; every option left under any spelling of the key
+   carries the new value (no stale case-variant survives); GetAll is non-empty
+   and holds nothing else *)
+Theorem C48_set_then_get : forall os key key' v,
+  key_eq key' key = true ->
+  opt_get (with_setted os key [v]) key' = v /\
+  (forall o, In o (with_setted os key [v]) -> key_eq (fst o) key' = true -> snd o = v) /\
+  (forall x, In x (opt_get_all (with_setted os key [v]) key') -> x = v) /\
+  opt_get_all (with_setted os key [v]) key' <> [].
+Proof. exact set_then_get. Qed.
+Print Assumptions C48_set_then_get.
+
+(* several values (remote url / fetch, url insteadOf): GetAll under any spelling
+   holds exactly the new values *)
+Theorem C48_set_get_all : forall os key key' values x,
+  key_eq key' key = true ->
+  (In x (opt_get_all (with_setted os key values) key') <-> In x values).
+Proof. exact set_get_all. Qed.
+Print Assumptions C48_set_get_all.
+
+(* options under other keys are untouched, order included *)
+Theorem C48_set_preserves_others : forall os key values,
+  filter (fun o => negb (key_eq (fst o) key)) (with_setted os key values) =
+  filter (fun o => negb (key_eq (fst o) key)) os.
+Proof. exact set_preserves_others. Qed.
+Print Assumptions C48_set_preserves_others.
+
+(* RemoveOption removes every spelling of the key and nothing else *)
+Theorem C48_remove_all_spellings : forall os key key',
+  key_eq key' key = true ->
+  opt_get_all (without_option os key) key' = [] /\ has (without_option os key) key' = false /\
+  filter (fun o => negb (key_eq (fst o) key)) (without_option os key) =
+  filter (fun o => negb (key_eq (fst o) key)) os.
+Proof. exact remove_all_spellings. Qed.
+Print Assumptions C48_remove_all_spellings.
+
+Theorem C48_add_then_get : forall os key key' v,
+  key_eq key' key = true -> opt_get (with_added os key v) key' = v.
+Proof. exact add_then_get. Qed.
+Print Assumptions C48_add_then_get.
+
+(* non-vacuity: url / URL / Url with stale values, set through the lower-case spelling *)
+Example C48_set_example :
+  let os := [(bytes_of_string "URL", bytes_of_string "old1"); (bytes_of_string "fetch", bytes_of_string "f");
+             (bytes_of_string "Url", bytes_of_string "new"); (bytes_of_string "url", bytes_of_string "old2")] in
+  with_setted os (bytes_of_string "url") [bytes_of_string "new"] =
+    [(bytes_of_string "fetch", bytes_of_string "f"); (bytes_of_string "Url", bytes_of_string "new")] /\
+  with_setted os (bytes_of_string "url") [bytes_of_string "other"] =
+    [(bytes_of_string "fetch", bytes_of_string "f"); (bytes_of_string "url", bytes_of_string "other")] /\
+  key_eq (bytes_of_string "URL") (bytes_of_string "url") = true.
 Proof. vm_compute. repeat split. Qed.
